@@ -40,6 +40,12 @@ class Ent:
     def val(self):
         return self.a
 
+    def heavy(self) -> bool:    # user code that itself calls a @predicate function (concretely: it is not in a block)
+        return p_k_ge(self, 2)
+
+    def twin(self):             # user code that itself constructs a @symbol class
+        return Twin(self.k, self.a)
+
     @property
     def dbl(self):              # a computed attribute: not a constructor parameter, but a legitimate keyword of a term
         return self.a * 2
@@ -94,6 +100,13 @@ class Other:                  # unrelated decorated class, for mixed-type domain
 
     def __repr__(self):
         return f"Other#{self.k}"
+
+
+@symbol
+@dataclass(eq=False)
+class Twin:                   # built by Ent.twin() while a condition is evaluated
+    k: int
+    a: int = 1
 
 
 CONSTRUCTED = {"Made": 0, "Pair": 0}   # construction counters (real instances only: __post_init__ ran)
@@ -163,6 +176,12 @@ CLASSES = {"Ent": Ent, "EntKw": EntKw, "EntSub": EntSub, "EntSubSub": EntSubSub,
 def p_a_ge(e, n):
     """function predicate over one entity and a constant"""
     return e.a >= n
+
+
+@predicate
+def p_k_ge(e, n):
+    """called from Ent.heavy(), never directly in a condition"""
+    return e.k >= n
 
 
 @predicate
